@@ -61,6 +61,13 @@ def run_wrapper(case, real=False):
             return dict(rec, outcome=2, sol=[])
         x0 = case["x0"]
         init = None if x0 is None else (lambda: np.array(x0, dtype=float))
+        if case.get("warm"):
+            # the same solver object has already answered the opposite request: each solve is judged by its own flag
+            try:
+                s.solve(np.array(case["rhs"], dtype=float), trans=not case["trans"], initial_sol=init)
+            except LinearSolverError:
+                pass
+            rec.update(called=False, bmat=[], brhs=[], bx0=None, btrans=False, odd=None)     # what is recorded is the measured solve
         try:
             v = s.solve(np.array(case["rhs"], dtype=float), trans=case["trans"], initial_sol=init)
             out = dict(rec, outcome=0, sol=[float(t) for t in v])
@@ -102,7 +109,7 @@ class LinSolve(Unit):
                 rhs = [float(v) for v in M.dot(np.array(x0))]
             elif c < 0.5:
                 x0 = g.vec(n, kmax=4, jmax=1)
-            cases.append({"kind": k % 3, "A": A, "rhs": rhs, "trans": r.random() < 0.5, "x0": x0, "sym": sym,
+            cases.append({"kind": k % 3, "A": A, "rhs": rhs, "trans": r.random() < 0.5, "x0": x0, "sym": sym, "warm": k % 2 == 1,
                           "splu_ok": r.random() < 0.8, "script": g.vec(n, kmax=8, jmax=2),
                           "info": r.choice([0, 0, 0, 1, n, -1, -3]), "fmt": r.choice(["coo", "csr", "csc"])})
         return cases
